@@ -514,3 +514,4 @@ fn c07_rmi_decode_len1() {
 fn c07_rmi_decode_len2() {
     c07_rmi_decode_body::<2>()
 }
+
